@@ -32,6 +32,9 @@ type Opts struct {
 	WildcardProjectImports bool // a project class of another package may be reached through a wildcard import of its package (alone, or next to the single-type import), among unrelated wildcard imports; simple names stay unique, so the name still denotes one class (C05)
 	SuperCallsDeclared     bool // super.m(...) may call a method the project superclass declares (C05)
 	ModuleLayout           bool // with Layout: also the multi-module Maven layout (core/src/main/java, contest-api/src/test/java) (C01)
+	ExoticNames            bool // method, variable and class names may contain `_`, `$` (not class names) and letters outside ASCII (run$impl, _tmp, größe, 値); packages with digits and underscores (C05)
+	LongLines              bool // physical lines of any length: parameter lists of 20-120 further parameters on one line, names of 41-300 and rarely 4100-5200 characters, a member or a whole unit written on one line, long block comments and string literals in front of declarations (C01)
+	UnqualifiedForeign     bool // unqualified calls that do not name a method of the class itself: a method inherited from the project superclass, a static method of a project class brought in by `import static pkg.P.m;` or `import static pkg.P.*;`; the on-demand form is also written as a mere decoy next to own methods of the same name (C02)
 }
 
 // Ann is an annotation as the model records it.
@@ -154,6 +157,9 @@ var pkgPool = []string{"com.acme", "com.acme.core", "org.demo", "app", "com.acme
 // wordPkgs (Opts.WordDirs) are packages whose directories contain the letters "test" without being test directories.
 var wordPkgs = []string{"com.acme.contest", "org.demo.latest.api", "app.attest", "com.protests.core"}
 
+// exoticPkgs (Opts.ExoticNames) are packages with digits and underscores in their names.
+var exoticPkgs = []string{"com.acme2.v1_0", "org.demo_x"}
+
 // moduleNames are the modules of the multi-module Maven layout (Opts.ModuleLayout).
 var moduleNames = []string{"core", "contest-api"}
 
@@ -174,7 +180,11 @@ func GenProject(t *rapid.T, o Opts) Project {
 	}
 	g := &gen{t: t, o: o, names: NewNames()}
 	g.names.Words = o.WordNames
+	g.names.Exotic, g.names.Long = o.ExoticNames, o.LongLines
 	pkgPool := pkgPool
+	if o.ExoticNames {
+		pkgPool = append(append([]string(nil), pkgPool...), exoticPkgs...)
+	}
 	if o.WordDirs {
 		pkgPool = append(append([]string(nil), pkgPool...), wordPkgs...)
 	}
@@ -453,6 +463,7 @@ type unitCtx struct {
 	pending  string // name of the local variable whose initializer is being written
 	budget   int
 	superIdx int // index of the project superclass, -1 if none
+	foreign  []foreignCallee // methods of other classes that an unqualified call may name (Opts.UnqualifiedForeign)
 }
 
 func (g *gen) unit(i int) (string, UnitTruth) {
@@ -463,6 +474,11 @@ func (g *gen) unit(i int) (string, UnitTruth) {
 	u.truth = &truth
 	u.indent = rapid.SampledFrom([]string{"    ", "  ", "\t", "        "}).Draw(t, "indent")
 	w := u.w
+	if g.o.LongLines && rapid.IntRange(0, 9).Draw(t, "flatUnit") == 9 {
+		// generated / minified code: the whole unit on one physical line
+		w.SetFlat(true)
+		u.feature("flat_unit")
+	}
 
 	// decide collaborators (project classes this unit refers to) and external types
 	collab := g.collaborators(i)
@@ -506,6 +522,11 @@ func (g *gen) unit(i int) (string, UnitTruth) {
 	// header
 	if rapid.IntRange(0, 3).Draw(t, "header") == 0 {
 		w.S("/*\n * " + g.comment("header") + "\n */\n")
+	}
+	if g.o.LongLines && rapid.IntRange(0, 7).Draw(t, "longHeader") == 7 {
+		// a long comment line in front of the package declaration
+		w.S("/* " + g.padText("header") + " */ ")
+		u.feature("long_comment")
 	}
 	if rapid.IntRange(0, 5).Draw(t, "leadingBlank") == 0 {
 		w.S("\n")
@@ -562,6 +583,11 @@ func (g *gen) unit(i int) (string, UnitTruth) {
 	for _, xi := range exts {
 		imps = append(imps, impLine{text: externals[xi].imp})
 		u.imports[externals[xi].imp] = true
+	}
+	if g.o.UnqualifiedForeign {
+		for _, si := range u.staticImports(chosen) {
+			imps = append(imps, impLine{text: si.text, static: true, wildcard: si.wildcard, verdict: "keep", why: "static import of a project class"})
+		}
 	}
 	if g.o.WildcardProjectImports && rapid.IntRange(0, 4).Draw(t, "unrelatedWildcard") == 4 {
 		imps = append(imps, impLine{text: rapid.SampledFrom([]string{"java.util", "org.lib.shared", "java.util.function"}).Draw(t, "unrelatedWildcardPkg"), wildcard: true, verdict: "keep", why: "wildcard"})
@@ -777,6 +803,11 @@ func (g *gen) unit(i int) (string, UnitTruth) {
 			if strings.Contains(mod, "final") {
 				init = " = " + defaultValue(typ)
 			}
+			if g.o.LongLines && typ == "String" && rapid.IntRange(0, 3).Draw(t, "longLiteral") == 3 {
+				// an embedded query / document / key as one long string literal
+				init = " = \"" + g.padText("literal") + "\""
+				u.feature("long_literal")
+			}
 			w.S(u.indent + mod + typ + " " + name + init + ";\n")
 			truth.Fields = append(truth.Fields, Param{vi.typ, name})
 		}
@@ -819,7 +850,25 @@ func (g *gen) unit(i int) (string, UnitTruth) {
 				w.S("\n")
 			}
 			if rapid.IntRange(0, 5).Draw(t, "memberComment") == 0 {
-				w.S(u.indent + "// " + g.comment("member") + "\n")
+				w.S(u.indent + w.LineComment(g.comment("member")) + "\n")
+			}
+		}
+		flatMember := false
+		if g.o.LongLines && !w.Flat() {
+			if rapid.IntRange(0, 24).Draw(t, "longMemberComment") == 24 {
+				// a long block comment in front of the member, on its line
+				if !sameLine {
+					w.S(u.indent)
+				}
+				w.S("/* " + g.padText("member") + " */")
+				sameLine = true
+				u.feature("long_comment")
+			}
+			if rapid.IntRange(0, 15).Draw(t, "flatMember") == 15 {
+				// the whole member, annotations and body included, on one physical line
+				flatMember = true
+				w.SetFlat(true)
+				u.feature("flat_member")
 			}
 		}
 		u.sameLine = sameLine
@@ -827,6 +876,9 @@ func (g *gen) unit(i int) (string, UnitTruth) {
 			u.ctor(m.idx, exts, typeParam)
 		} else {
 			u.method(s.methods[m.idx], exts, typeParam)
+		}
+		if flatMember {
+			w.SetFlat(false)
 		}
 	}
 	if len(members) > 0 {
@@ -1000,6 +1052,28 @@ func (g *gen) plainType(exts []int, typeParam string) (string, []string) {
 		return "Optional", []string{"Optional"}
 	}
 	return "long", nil
+}
+
+// padChunks are repeated to make the long comments and string literals of Opts.LongLines: no quotes,
+// backslashes, line ends or comment ends.
+var padChunks = []string{"x", "lorem ipsum ", "SELECT a, b FROM t WHERE a = 1 AND ", "0123456789abcdef", "m1(); int k = 2; ", "données ", "日本語"}
+
+// padText draws a text of 500..6000 bytes, rarely of 60000..70000 (longer than the 64 KiB token limit of
+// line scanners): one chunk repeated, so that it costs few draws and shrinks well.
+func (g *gen) padText(label string) string {
+	t := g.t
+	n := 0
+	if rapid.IntRange(0, 19).Draw(t, label+"PadHuge") == 19 {
+		n = rapid.IntRange(60000, 70000).Draw(t, label+"PadHugeLen")
+	} else {
+		n = rapid.IntRange(500, 6000).Draw(t, label+"PadLen")
+	}
+	chunks := padChunks
+	if !g.o.MultiByte {
+		chunks = chunks[:5]
+	}
+	chunk := rapid.SampledFrom(chunks).Draw(t, label+"PadChunk")
+	return strings.TrimRight(strings.Repeat(chunk, n/len(chunk)+1), " ")
 }
 
 func (g *gen) comment(label string) string {
